@@ -542,6 +542,57 @@ int main(int argc, char **argv) {
       return true;
     };
     add_space(R, "header_reinterpretation_all", all_small, [](const Entry &) { return (uint64_t)48; }, hdr, modes_q, true, true);
+    // second order: every reinterpretation that a decoder ACCEPTS becomes a carrier of its own (a valid stream of a legacy
+    // version / of the other method that this tree's encoder cannot write) and gets truncation and byte deviations.
+    // The acceptance scan runs in a forked child (a crash there is reported by the space above, not here).
+    const size_t n = all_small.size();
+    uint8_t *acc = (uint8_t *)mmap(nullptr, n * 48 + 1, PROT_READ | PROT_WRITE, MAP_SHARED | MAP_ANONYMOUS, -1, 0);
+    pid_t pid = fork();
+    if (pid == 0) {
+      mc::alloc_env().monitor = false;
+      for (size_t i = 0; i < n; ++i) {
+        if (g_corpus[all_small[i]].bytes.size() > 600) continue;
+        for (uint64_t k = 0; k < 48; ++k) {
+          Bytes b;
+          std::string op;
+          if (!hdr(g_corpus[all_small[i]], k, &b, &op)) continue;
+          try {
+            DecoderBuffer db;
+            db.Init(reinterpret_cast<const char *>(b.data()), b.size());
+            Decoder d;
+            auto type = Decoder::GetEncodedGeometryType(&db);
+            if (!type.ok()) continue;
+            if (type.value() == TRIANGULAR_MESH) acc[i * 48 + k] = d.DecodeMeshFromBuffer(&db).ok();
+            else acc[i * 48 + k] = d.DecodePointCloudFromBuffer(&db).ok();
+          } catch (...) {
+          }
+        }
+      }
+      _exit(0);
+    }
+    int wst = 0;
+    waitpid(pid, &wst, 0);
+    std::vector<int> reint, reint_small;
+    std::set<uint64_t> seen;
+    for (size_t i = 0; i < n; ++i)
+      for (uint64_t k = 0; k < 48; ++k)
+        if (acc[i * 48 + k]) {
+          Entry e;
+          std::string op;
+          hdr(g_corpus[all_small[i]], k, &e.bytes, &op);
+          if (!seen.insert(mc::hash_bytes(e.bytes.data(), e.bytes.size())).second) continue;
+          e.name = g_corpus[all_small[i]].name + " " + op;
+          e.gen = -1;
+          g_corpus.push_back(e);
+          reint.push_back((int)g_corpus.size() - 1);
+          if (e.bytes.size() <= 120) reint_small.push_back(reint.back());
+        }
+    munmap(acc, n * 48 + 1);
+    fprintf(stderr, "[%s] accepted header reinterpretations: %zu carriers (%zu of <= 120 bytes)\n", R.property.c_str(), reint.size(), reint_small.size());
+    add_space(R, "reinterpreted_trunc", reint, len, trunc, modes_q, true, true);
+    add_space(R, "reinterpreted_byte8_small", reint_small, [](const Entry &e) { return (uint64_t)e.bytes.size() * 8; }, byte8, modes_q, true, false);
+    add_space(R, "reinterpreted_byte8", reint, [](const Entry &e) { return (uint64_t)e.bytes.size() * 8; }, byte8, modes_q, false, true);
+    add_space(R, "reinterpreted_byte255_small", reint_small, [](const Entry &e) { return (uint64_t)e.bytes.size() * 255; }, byte255, mode0, false, true);
   }
   // one entropy-coder seam value replaced
   {
@@ -614,5 +665,30 @@ int main(int argc, char **argv) {
   R.require("decode_ok", 100);
   R.require("decode_rejected", 100);
   if (g_mode == M_C03) R.require("ok_after_deviation", 1000);
+  // a replay file carries the exact bytes of its case: replay those rather than the (space, index) pair, whose meaning
+  // shifts when the corpus changes (e.g. the carriers of reinterpreted_* exist only while a decoder accepts them)
+  if (R.replay_mode) {
+    const char *rc = getenv("VERIF_REPLAY_CASE");
+    std::string c = rc ? rc : "";
+    const size_t hp = c.find(" hex="), ep = c.find(" entry="), lp = c.find(" len=");
+    if (hp != std::string::npos && ep != std::string::npos && lp != std::string::npos) {
+      const size_t declared_len = strtoull(c.c_str() + lp + 5, nullptr, 10);
+      auto bytes = std::make_shared<Bytes>();
+      for (size_t i = hp + 5; i + 1 < c.size() && isxdigit((unsigned char)c[i]); i += 2) bytes->push_back((uint8_t)strtoul(c.substr(i, 2).c_str(), nullptr, 16));
+      if (bytes->size() == declared_len) {
+        const int entry = atoi(c.c_str() + ep + 7);
+        const std::string what = c.substr(0, lp);
+        mc::Space sp;
+        sp.name = "replay_bytes";
+        sp.size = 1;
+        sp.quick = sp.thorough = false;
+        sp.run = [=](uint64_t, mc::Ctx &ctx) { run_decode(*bytes, entry, ctx, "", what); };
+        sp.describe = [=](uint64_t) { return c; };
+        R.add(sp);
+        R.replay_space = "replay_bytes";
+        R.replay_index = 0;
+      }
+    }
+  }
   return R.main();
 }
